@@ -1,6 +1,7 @@
 package c17
 
 import (
+	"math"
 	"testing"
 
 	"verif/harness/kit"
@@ -18,13 +19,21 @@ func TestSweep(t *testing.T) {
 	rec := kit.NewRecorder(env, "sweep")
 	defer func() { rec.Flush(!t.Failed()) }()
 	rates := append([]float64{1, 2, 3, 7, 0.5, 0.01, 1000, 999999, 1000000, 1e7, 1024, 12345.678}, StdRates...)
+	for _, base := range []float64{8000, 22050, 44100, 48000, 96000, 1000, 1} { // rates next to an integer
+		for _, eps := range []float64{5e-10, -6e-10, 1e-11, -1e-12, 3e-8} {
+			rates = append(rates, base+eps)
+		}
+		rates = append(rates, math.Nextafter(base, 0), math.Nextafter(base, math.Inf(1)))
+	}
 	for _, f := range rates {
 		var ns, ds []int64
 		for n := int64(0); n < 300; n++ {
 			ns = append(ns, n)
 			ds = append(ds, n, n*1000003%day)
 		}
-		maxN := int64(f * 86400)
+		maxN := int64(math.Floor(f * 86400))
+		ns = append(ns, maxN, maxN-1, maxN-2)
+		ds = append(ds, day, day-1, day-2)
 		for h := int64(1); h <= 24; h++ {
 			for off := int64(-3); off <= 3; off++ {
 				if n := int64(f*3600*float64(h)) + off; n >= 0 && n <= maxN {
